@@ -104,6 +104,11 @@ def shared_decorator(fn, coro):
     return wrapper
 
 
+def log_name(m):
+    """The name the instrumented body logs: a function object registered under several names can only log one."""
+    return 'shared:%s' % m['share'] if m.get('share') else m['name']
+
+
 def make_callable(m, is_async, log):
     """Returns (callable_or_viewclass, is_view)."""
     sig = m['sig']
@@ -113,7 +118,7 @@ def make_callable(m, is_async, log):
     #             returns a coroutine)
     coro = bool(is_async) and m.get('coro', True) and (is_async != 'plain' or bool(m.get('yields')))
     wrapped = is_async == 'wrapped' and coro
-    ns = {'HLOG_': log, 'HEXC_': EXC_TABLE, 'pjrpc': pjrpc, 'UNSET': UNSET, 'HBODY_': body, 'HNAME_': m['name']}
+    ns = {'HLOG_': log, 'HEXC_': EXC_TABLE, 'pjrpc': pjrpc, 'UNSET': UNSET, 'HBODY_': body, 'HNAME_': log_name(m)}
     view = m['ctx'][0] == 'view'
     static = view and len(m['ctx']) > 2 and m['ctx'][2] == 'static'      # a @staticmethod exposed by the view
     env = env_expr(sig)
@@ -534,8 +539,8 @@ def cdconfig(cfg):
     key = json.dumps(cfg, sort_keys=True, default=repr)
     if key in _cfg_cache:
         return _cfg_cache[key]
-    ms = clist('{| md_name := %s; md_sig := %s; md_ctx := %s; md_body := %s |}'
-               % (cstr(m['name']), csig(m['sig']), cctx(m['ctx']), cbody(m['body'])) for m in cfg['methods'])
+    ms = clist('{| md_name := %s; md_sig := %s; md_ctx := %s; md_body := %s; md_log := %s |}'
+               % (cstr(m['name']), csig(m['sig']), cctx(m['ctx']), cbody(m['body']), cstr(log_name(m))) for m in cfg['methods'])
     mws = clist(cmw(d) for d in cfg.get('mws', []))
     ehs = clist('(%s, %s)' % (copt(k, cZ), clist(ceh(d) for d in hs)) for k, hs in cfg.get('ehs', []))
     t = '{| dc_methods := %s; dc_mws := %s; dc_ehs := %s; dc_max_batch := %s |}' % (ms, mws, ehs, copt(cfg.get('max_batch'), cZ))
